@@ -43,7 +43,7 @@ def scenarios(tier, rng):
             for kind in KINDS:
                 for piped in (False, True):
                     for cap in (False, True):
-                        scns.append({"cfg": {"ops": [o], "piped": piped, "captured": cap, "kind": kind}, "spell": [sp]})
+                        scns.append({"cfg": {"ops": [o], "piped": piped, "captured": cap, "kind": kind}, "spell": [sp], "mid": piped and (sp % 2 == 1)})
     for kind in KINDS:
         for piped in (False, True):
             for cap in (False, True):
@@ -58,7 +58,7 @@ def scenarios(tier, rng):
         for kind in KINDS:
             for piped in (False, True):
                 cap = rng.random() < 0.5
-                scns.append({"cfg": {"ops": [a, b], "piped": piped, "captured": cap, "kind": kind}, "spell": [rng.randrange(12), rng.randrange(12)]})
+                scns.append({"cfg": {"ops": [a, b], "piped": piped, "captured": cap, "kind": kind}, "spell": [rng.randrange(12), rng.randrange(12)], "mid": piped and rng.random() < 0.5})
     return scns
 
 
